@@ -162,6 +162,57 @@ def newton_stream(tier, seed, violations):
     return dict(evaluations=total, distinct_nontrivial=len(distinct), kernel_reevaluated=nk, histogram=hist,
                 sample=(meta["nreal"][0][0] if meta["nreal"] else None))
 
+# ---- linear-system stream: linearly recursive SCCs of several NON-scalar nonterminals (matrix blocks) ----
+LINSYS_METHODS = ["linear", "newton", "linear", "newton", "fixed-point"]
+WHAT = {1: "returned value lies outside the certified enclosure of the least fixed point (= limit of the bounded-depth derivation sums)",
+        4: "an entry of sum_products is missing",
+        5: "method='linear' on a grammar that is not linearly recursive did not raise ValueError",
+        6: "ValueError raised although the grammar is linearly recursive / method is not 'linear'",
+        7: "iteration budget exhausted before the stopping criterion was met, but no warning was issued"}
+ORACLE = {1: "enclosure (C02_park)", 5: "expect_value_error", 6: "expect_value_error", 7: "must_warn"}
+
+def linsys_stream(tier, seed, violations, bycf, meta):
+    """gen.linear_system_spec x {Real, Log, Viterbi, Bool} x method in {linear, newton (dispatched to linear), fixed-point
+    (control)}; the cases are appended to the main stream's batches (converged values judged by the certified enclosure,
+    exact in Viterbi/Bool)"""
+    rng = random.Random(seed * 131 + 17)
+    n = int(os.environ.get("VERIF_N_LINSYS", 0)) or (48 if tier == "quick" else 1200)
+    feats = {}; distinct = set(); hist = dict(method={}, semiring={}, ids={}, patterned=0, staged=0)
+    total = 0; sample = None
+    for i in range(n):
+        spec = gen.linear_system_spec(rng)
+        key = json.dumps(gen.spec_jsonable(spec), sort_keys=True)
+        for f in spec["features"]: feats[f] = feats.get(f, 0) + 1
+        gw = grammar_wire(spec)
+        ids = ["explicit", "implicit", "mixed"][i % 3]; patterned = (i % 2 == 0); staged = (i % 7 == 3)
+        hist["ids"][ids] = hist["ids"].get(ids, 0) + 1; hist["patterned"] += patterned; hist["staged"] += staged
+        for ci, sr in enumerate(CONFIGS2):
+            rot = LINSYS_METHODS[(i + ci) % len(LINSYS_METHODS)]
+            # the cheap exact semirings get both solvers on every grammar
+            for method in ([rot] if sr.name in ("real", "log") else sorted({"linear", "newton", rot})):
+                mi = METHODS.index(method)
+                kmax = 400; tol = 1e-10 if sr.name in ("real", "log") else 1e-6
+                call = "fggs.sum_products(fgg, method=%r, semiring=%r, tol=%g, kmax=%d)" % (method, sr, tol, kmax)
+                try:
+                    raised, warned, out = run_impl(spec, sr, method, tol, kmax, ids=ids, rng=rng,
+                                                   rtol=Fraction(1, 10**6), atol=Fraction(1, 10**7), patterned=patterned, staged=staged)
+                except Exception as e:
+                    violations.append(Violation("sum_products raised %r" % (e,),
+                                                case=dict(spec=gen.spec_jsonable(spec), semiring=repr(sr), method=method, tol=tol, kmax=kmax, stream="linsys"),
+                                                call=call, corr="corr:sum_products(recursive), linear-system stream",
+                                                oracle="no exception other than the documented ValueError"))
+                    continue
+                hist["method"][method] = hist["method"].get(method, 0) + 1
+                hist["semiring"][sr.name] = hist["semiring"].get(sr.name, 0) + 1
+                distinct.add((key, sr.name, method)); total += 1
+                obs = (raised, warned, (not warned) and (not raised), sorted(out.items()))
+                bycf[sr.carrier()].append((gw, weights_wire(spec, sr), (mi, 3, Fraction(tol)), K_ENCL, obs))
+                meta[sr.carrier()].append((spec, sr, method, tol, kmax, obs, "linsys"))
+                if sample is None and sr.name == "bool":
+                    sample = dict(spec=gen.spec_jsonable(spec), semiring=repr(sr), method=method, tol=tol, kmax=kmax, observed=obs)
+    return dict(evaluations=total, distinct_nontrivial=len(distinct), histogram=hist, feature_histogram=feats, sample=sample,
+                value_checks_conclusive=0, value_checks_inconclusive_discarded=0, warned_not_value_checked=0)
+
 def f2_predicate(spec, sr, method):
     return sr.name == "viterbi" and method in ("newton", "linear")
 
@@ -205,7 +256,8 @@ def run(tier, seed):
             chkvals = (not budget_case) and (not warned) and (not raised)
             obs = (raised, warned, chkvals, sorted(out.items()))
             bycf[sr.carrier()].append((gw, weights_wire(spec, sr), (mi, min(kmax, 3), Fraction(tol)), K_ENCL, obs))
-            meta[sr.carrier()].append((spec, sr, method, tol, kmax, obs))
+            meta[sr.carrier()].append((spec, sr, method, tol, kmax, obs, "main"))
+    lcov = linsys_stream(tier, seed, violations, bycf, meta)
     total = 0; nk = 0; inconclusive = 0; conclusive = 0
     for k, vals in bycf.items():
         codes, n_k = run_model(CF[k], vals, seed=seed, coq_sample=4 if tier == "quick" else 25, tag="c02" + k)
@@ -213,26 +265,27 @@ def run(tier, seed):
         if os.environ.get("VERIF_DEBUG"):
             import collections
             print(k, collections.Counter((m[2], m[4], c) for m, c in zip(meta[k], codes)))
-        for (spec, sr, method, tol, kmax, obs), c in zip(meta[k], codes):
+        for (spec, sr, method, tol, kmax, obs, stream), c in zip(meta[k], codes):
+            if stream == "linsys":
+                if c == 30: lcov["value_checks_inconclusive_discarded"] += 1; continue
+                if c == 0:
+                    lcov["value_checks_conclusive" if obs[2] else "warned_not_value_checked"] += 1
+                    continue
             if c == 30: inconclusive += 1; continue
             if c == 0:
                 if obs[2]: conclusive += 1
                 continue
-            case = dict(spec=gen.spec_jsonable(spec), semiring=repr(sr), method=method, tol=tol, kmax=kmax)
+            case = dict(spec=gen.spec_jsonable(spec), semiring=repr(sr), method=method, tol=tol, kmax=kmax, stream=stream)
             call = "fggs.sum_products(fgg, method=%r, semiring=%r, tol=%g, kmax=%d)" % (method, sr, tol, kmax)
-            what = {1: "returned value lies outside the certified enclosure of the least fixed point (= limit of the bounded-depth derivation sums)",
-                    4: "an entry of sum_products is missing",
-                    5: "method='linear' on a grammar that is not linearly recursive did not raise ValueError",
-                    6: "ValueError raised although the grammar is linearly recursive / method is not 'linear'",
-                    7: "iteration budget exhausted before the stopping criterion was met, but no warning was issued"}.get(c, "framework inconsistency (code %d)" % c)
+            what = WHAT.get(c, "framework inconsistency (code %d)" % c)
             fk = None
-            violations.append(Violation(what, case=case, observed=dict(raised=obs[0], warned=obs[1], values=obs[3]),
-                                        oracle={1: "enclosure (C02_park)", 5: "expect_value_error", 6: "expect_value_error", 7: "must_warn"}.get(c),
-                                        corr="C02 / corr:sum_products(recursive)", failing_input_found=c in (1, 4, 5, 6, 7), call=call, finding_key=fk))
+            violations.append(Violation(what, case=case, observed=dict(raised=obs[0], warned=obs[1], values=obs[3]), oracle=ORACLE.get(c),
+                                        corr="C02 / corr:sum_products(recursive)" + (", linear-system stream" if stream == "linsys" else ""),
+                                        failing_input_found=c in (1, 4, 5, 6, 7), call=call, finding_key=fk))
     s0 = meta["real"][0] if meta["real"] else None
     ncov = newton_stream(tier, seed, violations)
     total += ncov["evaluations"]; nk += ncov["kernel_reevaluated"]
-    cov = dict(evaluations=total, distinct_nontrivial=len(distinct) + ncov["distinct_nontrivial"], newton_stream=ncov,
+    cov = dict(evaluations=total, distinct_nontrivial=len(distinct) + ncov["distinct_nontrivial"] + lcov["distinct_nontrivial"], newton_stream=ncov, linear_system_stream=lcov,
                rule="random recursive FGG specs (self-loops, mutually recursive SCCs, linear/non-linear recursion, weight-one cycles in Viterbi/Bool; Real/Log weights damped by 1/4; one sixth chain grammars with deep best derivations; half with sparse PatternedTensor weights where the values allow; a fifth built in two stages with a query in between) x {Real, Log, Viterbi, Bool} x method rotating over fixed-point/newton/linear; one third of the runs with budget kmax in {1,2} (warning expected when the first kmax+1 stopping tests provably fail), the rest with kmax=400 (values judged against the certified enclosure); all grammars are recursive hence non-trivial; distinct by spec",
                case_kinds=kinds, value_checks_conclusive=conclusive, value_checks_inconclusive_discarded=inconclusive,
                feature_histogram=feats, kernel_reevaluated=nk, kleene_steps=K_ENCL,
